@@ -132,7 +132,10 @@ class Stats(object):
         for key, val in other['excluded'].items():
             self.excluded[key] = self.excluded.get(key, 0) + val
         for key, val in other.get('counters', {}).items():
-            self.counters[key] = self.counters.get(key, 0) + val
+            if key == 'slowest_case_s':
+                self.counters[key] = max(self.counters.get(key, 0), val)
+            else:
+                self.counters[key] = self.counters.get(key, 0) + val
         for smp in other['samples']:
             if len(self.samples) < 8:
                 self.samples.append(smp)
